@@ -3,10 +3,14 @@ package props
 // Rules added after the fourth round of seeded changes (DESIGN §9.6).
 
 import (
+	"fmt"
 	"go/ast"
 	"go/token"
 	"go/types"
+	"regexp"
+	"sort"
 	"strings"
+	"unicode"
 
 	"verifcheck/core"
 )
@@ -963,4 +967,782 @@ func extra4C09Upload(c *Ctx) {
 		c.Check(rule, f.Key()+" receive#"+itoa(n)+" from nextURL only for an unfinished upload", c.Pos(h.Node), ok, "Run can wait here for an upload that Prepare already declared done (mounted blob): the channel is nil and the entry is never removed")
 	}
 	c.Expect(rule, "receives from nextURL in blobUpload.Run", n, 2)
+}
+
+// ================================================================== round 4, second batch
+
+func init() {
+	wrap := func(id string, extra func(c *Ctx)) {
+		prev := registry[id].Run
+		registry[id].Run = func(c *Ctx) { prev(c); extra(c) }
+	}
+	registry["C11"].Pkgs = append(registry["C11"].Pkgs, "llm")
+	wrap("C11", extra4C11)
+	wrap("C13", extra4C13)
+	wrap("C14", extra4C14)
+	wrap("C15", extra4C15)
+	wrap("C17", extra4bC17)
+	wrap("C18", extra4bC18)
+	wrap("C19", extra4C19)
+}
+
+// ---------------------------------------------------------------------------------- C11
+
+func extra4C11(c *Ctx) {
+	rule := "C11-R12"
+	c.Rule(rule, "every estimate says how much memory the model needs in all: each MemoryEstimate returned by EstimateGPULayers has TotalSize set — in the literal that creates it or by an assignment that dominates the return — including the early returns for the CPU library and for zero offloaded layers (the scheduler's CPU-mode fit test compares estimate.TotalSize with free system memory; an estimate of 0 always fits, so nothing is ever evicted to make room)")
+	if f := c.Fn(rule, "llm", "EstimateGPULayers"); f != nil {
+		info := f.Info()
+		g := c.G(f)
+		fTotal := c.P.LookupField("llm", "MemoryEstimate", "TotalSize")
+		if fTotal == nil {
+			c.Undecided(rule, "anchor:llm.MemoryEstimate.TotalSize", "-", "anchor lost")
+		} else {
+			n := 0
+			for _, ex := range g.Returns() {
+				if ex.Return == nil || len(ex.Return.Results) != 1 {
+					continue
+				}
+				id, isId := ast.Unparen(ex.Return.Results[0]).(*ast.Ident)
+				if !isId {
+					if cl, isL := ast.Unparen(ex.Return.Results[0]).(*ast.CompositeLit); isL {
+						n++
+						c.Check(rule, f.Key()+" return#"+itoa(n)+" carries TotalSize", c.Pos(ex.Return), litSetsField(info, cl, fTotal), "the returned literal does not set TotalSize")
+					}
+					continue
+				}
+				o := info.Uses[id]
+				n++
+				ok := false
+				for _, d := range g.AssignsTo(o) {
+					if as, isA := d.Node.(*ast.AssignStmt); isA && len(as.Rhs) == 1 {
+						if cl, isL := ast.Unparen(as.Rhs[0]).(*ast.CompositeLit); isL && litSetsField(info, cl, fTotal) && g.Dominates(d.Loc, ex.Loc) {
+							ok = true
+						}
+					}
+				}
+				for _, h := range g.Find(func(m ast.Node) bool {
+					as, isA := m.(*ast.AssignStmt)
+					if !isA {
+						return false
+					}
+					for _, l := range as.Lhs {
+						if se, isS := ast.Unparen(l).(*ast.SelectorExpr); isS && core.FieldVar(info, se) == fTotal && isIdentOf(info, se.X, o) {
+							return true
+						}
+					}
+					return false
+				}) {
+					if g.Dominates(h.Loc, ex.Loc) {
+						ok = true
+					}
+				}
+				c.Check(rule, f.Key()+" return#"+itoa(n)+" carries TotalSize", c.Pos(ex.Return), ok, "this return hands back an estimate whose TotalSize was never set (0): the CPU fit test then always succeeds")
+			}
+			c.Expect(rule, "returns of EstimateGPULayers", n, 3)
+		}
+	}
+
+	rule = "C11-R13"
+	c.Rule(rule, "what a runner is recorded with is what later requests are compared with: once a request exists (LlmRequest literal in GetRunner) its options are written only as opts.NumCtx = origNumCtx × <parallelism> (or origNumCtx itself), the one change needsReload divides out again — any other normalisation of options belongs before the request is built, so that the stored runner options and the options of the next identical request agree (a clamp applied at load time makes every identical request look different and reload the model)")
+	fOpts := c.P.LookupField("server", "LlmRequest", "opts")
+	fOrig := c.P.LookupField("server", "LlmRequest", "origNumCtx")
+	if fOpts == nil || fOrig == nil {
+		c.Undecided(rule, "anchor:LlmRequest.opts/origNumCtx", "-", "anchor lost")
+		return
+	}
+	n := 0
+	for _, f := range c.P.FuncsOf("server") {
+		if strings.HasSuffix(c.Pos(f.Body), "_test.go") {
+			continue
+		}
+		info := f.Info()
+		ast.Inspect(f.Body, func(m ast.Node) bool {
+			var lhs []ast.Expr
+			var rhs []ast.Expr
+			switch x := m.(type) {
+			case *ast.AssignStmt:
+				lhs, rhs = x.Lhs, x.Rhs
+			case *ast.IncDecStmt:
+				lhs = []ast.Expr{x.X}
+			default:
+				return true
+			}
+			for i, l := range lhs {
+				// X.opts or X.opts.F...
+				through, field := false, ""
+				e := ast.Unparen(l)
+				for {
+					se, ok := e.(*ast.SelectorExpr)
+					if !ok {
+						break
+					}
+					if core.FieldVar(info, se) == fOpts {
+						through = true
+						break
+					}
+					if field == "" {
+						field = se.Sel.Name
+					}
+					e = ast.Unparen(se.X)
+				}
+				if !through {
+					continue
+				}
+				n++
+				ok := false
+				if field == "NumCtx" && i < len(rhs) && len(lhs) == len(rhs) {
+					r := ast.Unparen(rhs[i])
+					if be, isB := r.(*ast.BinaryExpr); isB && be.Op == token.MUL {
+						r = ast.Unparen(be.X)
+						if se, isS := ast.Unparen(be.Y).(*ast.SelectorExpr); isS && core.FieldVar(info, se) == fOrig {
+							r = se
+						}
+					}
+					if se, isS := r.(*ast.SelectorExpr); isS && core.FieldVar(info, se) == fOrig {
+						ok = true
+					}
+				}
+				c.Check(rule, f.Key()+" store:opts."+field+"#"+itoa(n), c.Pos(m), ok, "a queued request's options are changed here in a way needsReload does not undo: the runner is recorded with other options than the next identical request carries")
+			}
+			return true
+		})
+	}
+	c.Expect(rule, "stores to a queued request's options", n, 4)
+}
+
+func litSetsField(info *types.Info, cl *ast.CompositeLit, fv *types.Var) bool {
+	for _, el := range cl.Elts {
+		if kv, ok := el.(*ast.KeyValueExpr); ok {
+			if id, isId := kv.Key.(*ast.Ident); isId && info.Uses[id] == fv {
+				return true
+			}
+		}
+	}
+	return false
+}
+
+// ---------------------------------------------------------------------------------- C13
+
+func extra4C13(c *Ctx) {
+	rule := "C13-R8"
+	c.Rule(rule, "the case-insensitive match against what is on disk cannot be skipped silently: in getExistingName the error of listing the manifests reaches only returns of that error (it is the one place where Create, Pull, Copy, Delete, Show and Push map a spelling that differs in letter case onto the stored model; carrying on with the name as typed writes a second manifest differing only in case)")
+	f := c.Fn(rule, "server", "getExistingName")
+	if f == nil {
+		return
+	}
+	n := ruleErrorsPropagate(c, rule, []*core.Func{f}, nil)
+	c.Expect(rule, "fallible calls in getExistingName", n, 1)
+}
+
+// ---------------------------------------------------------------------------------- C14
+
+func extra4C14(c *Ctx) {
+	rule := "C14-R10"
+	c.Rule(rule, "every generated piece is searched for stop sequences: in both runners' processBatch every path from appending the piece to pendingResponses to the end of the iteration passes the FindStop call — no hold (`continue` for a partial stop or an incomplete UTF-8 tail) comes before it (a piece that completes a stop but ends inside a character would otherwise be flushed by the final flush with the stop in it)")
+	for _, pkg := range []string{ollamaRunnerPkg, llamaRunnerPkg} {
+		f := c.Fn(rule, pkg, "Server.processBatch")
+		if f == nil {
+			continue
+		}
+		info := f.Info()
+		g := c.G(f)
+		fPend := c.P.LookupField(pkg, "Sequence", "pendingResponses")
+		if fPend == nil {
+			c.Undecided(rule, "anchor:"+pkg+".Sequence.pendingResponses", "-", "anchor lost")
+			continue
+		}
+		apps := g.Find(func(m ast.Node) bool {
+			as, ok := m.(*ast.AssignStmt)
+			if !ok || len(as.Lhs) != 1 || len(as.Rhs) != 1 {
+				return false
+			}
+			se, isS := ast.Unparen(as.Lhs[0]).(*ast.SelectorExpr)
+			call, isC := ast.Unparen(as.Rhs[0]).(*ast.CallExpr)
+			return isS && isC && core.FieldVar(info, se) == fPend && core.CalleeName(info, call) == "builtin.append"
+		})
+		if !c.Expect(rule, "appends to pendingResponses in "+pkg+" processBatch", len(apps), 1) {
+			continue
+		}
+		for i, ap := range apps {
+			bad := ""
+			g.Walk(ap.Loc, func(m ast.Node, l core.Loc) bool {
+				if bad != "" {
+					return true
+				}
+				if g.NodeCalls(m, "runner/common.FindStop") != nil {
+					return true
+				}
+				if br, isBr := m.(*ast.BranchStmt); isBr && (br.Tok == token.CONTINUE || br.Tok == token.BREAK) {
+					bad = c.Pos(br)
+					return true
+				}
+				if _, isRet := m.(*ast.ReturnStmt); isRet {
+					return true // an error return ends the batch, not the stream's text
+				}
+				if m == ap.Top {
+					bad = "the next iteration"
+					return true
+				}
+				return false
+			})
+			c.Check(rule, f.Key()+" append#"+itoa(i+1)+" is followed by the stop search", c.Pos(ap.Node), bad == "", "the iteration can end at "+bad+" without FindStop having seen the piece")
+		}
+	}
+}
+
+// ---------------------------------------------------------------------------------- C15
+
+func extra4C15(c *Ctx) {
+	rule := "C15-R8"
+	c.Rule(rule, "closed inventory of shared containers: the package-level variables of package server that can hold data shared between requests (maps, sync.Map, slices, pointers, channels, structs containing them) are the audited ones — the two transfer managers (fields of their values: R1b), intermediateBlobs (never inserted into), the digest pattern (a *regexp.Regexp is safe for concurrent use) and the test dial hook; a new one — a cache of decoded model metadata, say — hands the same maps to concurrently running handlers, which edit them (GetModelInfo deletes keys from the KV it got)")
+	pkg := c.P.Pkgs["server"]
+	audited := map[string]string{
+		"blobDownloadManager":        "sync.Map digest → *blobDownload; field discipline checked by C15-R1b",
+		"blobUploadManager":          "sync.Map digest → *blobUpload; field discipline checked by C15-R1b",
+		"intermediateBlobs":          "map nobody inserts into (C15-R2)",
+		"canonicalDigest":            "*regexp.Regexp, safe for concurrent use",
+		"testMakeRequestDialContext": "test hook, nil in production",
+	}
+	n := 0
+	for _, name := range pkg.Types.Scope().Names() {
+		v, ok := pkg.Types.Scope().Lookup(name).(*types.Var)
+		if !ok || strings.HasSuffix(c.P.Fset.Position(v.Pos()).Filename, "_test.go") {
+			continue
+		}
+		t := v.Type()
+		if types.Identical(t, types.Universe.Lookup("error").Type()) {
+			continue
+		}
+		holds := sharedMutable(t) || strings.HasPrefix(t.String(), "sync.")
+		if _, isSig := t.Underlying().(*types.Signature); isSig {
+			holds = true
+		}
+		if !holds {
+			continue
+		}
+		n++
+		why, ok2 := audited[name]
+		c.Check(rule, "pkgvar:"+name, c.P.Pos(v.Pos()), ok2, "package-level "+t.String()+" is not in the audited inventory of shared containers"+why[:0])
+	}
+	c.Expect(rule, "package-level containers of package server", n, 5)
+}
+
+// ---------------------------------------------------------------------------------- C17
+
+// loopCarried reports a decision inside body (if/switch condition, or the init statement of an
+// if) that reads a variable declared outside body and written inside it.
+func loopCarried(info *types.Info, body *ast.BlockStmt) (ast.Node, string) {
+	written := map[types.Object]bool{}
+	root := func(e ast.Expr) types.Object {
+		for {
+			switch x := ast.Unparen(e).(type) {
+			case *ast.Ident:
+				o := info.Uses[x]
+				if o != nil && (o.Pos() < body.Pos() || o.Pos() > body.End()) {
+					return o
+				}
+				return nil
+			case *ast.IndexExpr:
+				e = x.X
+			case *ast.SelectorExpr:
+				e = x.X
+			case *ast.StarExpr:
+				e = x.X
+			default:
+				return nil
+			}
+		}
+	}
+	core.InspectShallow(body, func(m ast.Node) bool {
+		switch x := m.(type) {
+		case *ast.AssignStmt:
+			for _, l := range x.Lhs {
+				if o := root(l); o != nil {
+					written[o] = true
+				}
+			}
+		case *ast.IncDecStmt:
+			if o := root(x.X); o != nil {
+				written[o] = true
+			}
+		}
+		return true
+	})
+	var at ast.Node
+	what := ""
+	reads := func(n ast.Node) {
+		if n == nil || at != nil {
+			return
+		}
+		ast.Inspect(n, func(m ast.Node) bool {
+			if id, ok := m.(*ast.Ident); ok && at == nil {
+				if o := info.Uses[id]; o != nil && written[o] {
+					at, what = n, id.Name
+				}
+			}
+			return at == nil
+		})
+	}
+	core.InspectShallow(body, func(m ast.Node) bool {
+		switch x := m.(type) {
+		case *ast.IfStmt:
+			reads(x.Cond)
+			if x.Init != nil {
+				if as, ok := x.Init.(*ast.AssignStmt); ok {
+					for _, r := range as.Rhs {
+						reads(r)
+					}
+				}
+			}
+		case *ast.SwitchStmt:
+			if x.Tag != nil {
+				reads(x.Tag)
+			}
+		}
+		return true
+	})
+	return at, what
+}
+
+func extra4bC17(c *Ctx) {
+	rule := "C17-R9"
+	c.Rule(rule, "tool calls are recognised object by object: in parseToolCalls the loop that turns the collected objects into tool calls decides about each object from that object alone — no condition in its body reads a variable that the loop itself writes (the streaming handlers parse the text accumulated since the last recognised call and the non-streaming handler parses the whole output once; any memory across objects inside one invocation — a de-duplication set, a counter — makes the two disagree according to where the chunks were cut)")
+	if f := c.Fn(rule, "server", "Model.parseToolCalls"); f != nil {
+		info := f.Info()
+		// the loop whose body appends api.ToolCall values
+		var loops []*ast.RangeStmt
+		core.InspectShallow(f.Body, func(m ast.Node) bool {
+			rs, ok := m.(*ast.RangeStmt)
+			if !ok {
+				return true
+			}
+			has := false
+			core.InspectShallow(rs.Body, func(k ast.Node) bool {
+				if cl, isL := k.(*ast.CompositeLit); isL {
+					if t := info.Types[cl].Type; t != nil && core.ObjNameOfType(t) == "api.ToolCall" {
+						has = true
+					}
+				}
+				return true
+			})
+			if has {
+				loops = append(loops, rs)
+			}
+			return true
+		})
+		if c.Expect(rule, "loops that build tool calls in parseToolCalls", len(loops), 1) {
+			for i, rs := range loops {
+				at, what := loopCarried(info, rs.Body)
+				pos := c.Pos(rs)
+				if at != nil {
+					pos = c.Pos(at)
+				}
+				c.Check(rule, f.Key()+" tool-call loop#"+itoa(i+1)+" treats objects independently", pos, at == nil, "a decision in the loop reads "+what+", which earlier iterations of the same invocation wrote: the result depends on how the output was split into invocations")
+			}
+		}
+	}
+
+	rule = "C17-R10"
+	c.Rule(rule, "the streamed chunk goes out as it was built: in ChatWriter.writeResponse and CompleteWriter.writeResponse the value toChunk / toCompleteChunk returned is marshalled by a json.Marshal that no store to its Choices can reach — the conversion of the last chunk into the usage event (Usage set, Choices emptied) happens after the chunk's own bytes exist (marshalling later, through an alias, sends two usage events and never the finish reason or the final content)")
+	for _, w := range []struct{ fn, conv string }{{"ChatWriter.writeResponse", "openai.toChunk"}, {"CompleteWriter.writeResponse", "openai.toCompleteChunk"}} {
+		f := c.Fn(rule, "openai", w.fn)
+		if f == nil {
+			continue
+		}
+		info := f.Info()
+		g := c.G(f)
+		convs := g.FindCalls(w.conv)
+		if !c.Expect(rule, w.conv+" calls in "+w.fn, len(convs), 1) {
+			continue
+		}
+		cv := core.ResultVar(info, convs[0].Top, convs[0].Node.(*ast.CallExpr), 0)
+		if cv == nil {
+			c.Undecided(rule, f.Key()+" chunk variable", c.Pos(convs[0].Node), "the chunk is not bound to a variable")
+			continue
+		}
+		var stores []core.Hit
+		for _, h := range g.Find(func(m ast.Node) bool {
+			as, ok := m.(*ast.AssignStmt)
+			if !ok {
+				return false
+			}
+			for _, l := range as.Lhs {
+				if se, isS := ast.Unparen(l).(*ast.SelectorExpr); isS && isIdentOf(info, se.X, cv) && se.Sel.Name == "Choices" {
+					return true
+				}
+			}
+			return false
+		}) {
+			stores = append(stores, h)
+		}
+		okM, whyM := false, "no json.Marshal of the chunk variable itself"
+		for _, mh := range g.FindCalls("encoding/json.Marshal") {
+			call := mh.Node.(*ast.CallExpr)
+			arg := ast.Unparen(call.Args[0])
+			if u, isU := arg.(*ast.UnaryExpr); isU && u.Op == token.AND {
+				arg = ast.Unparen(u.X)
+			}
+			if !isIdentOf(info, arg, cv) || !g.Dominates(convs[0].Loc, mh.Loc) {
+				continue
+			}
+			clean := true
+			for _, st := range stores {
+				if g.Reaches(st.Loc, mh.Loc) || st.Loc == mh.Loc {
+					clean = false
+				}
+			}
+			if clean {
+				okM = true
+			} else if !okM {
+				whyM = "every json.Marshal of the chunk can be reached by a store that replaces its Choices"
+			}
+		}
+		c.Check(rule, f.Key()+" chunk marshalled before it is modified", c.Pos(convs[0].Node), okM, whyM)
+	}
+}
+
+// ---------------------------------------------------------------------------------- C18
+
+func extra4bC18(c *Ctx) {
+	rule := "C18-R9"
+	c.Rule(rule, "temperature zero stays zero: NewSampler stores its temperature parameter itself in Sampler.temperature, and the only assignments to that parameter before the store replace it by the constant 0 or are made on an edge that excludes 0 — the greedy shortcut of sample() tests s.temperature == 0, so a clamp to a small positive value turns 'temperature 0' into sampling at T=1e-7, which picks the second of two nearly equal logits more than a third of the time and overflows on large logits")
+	f := c.Fn(rule, "sample", "NewSampler")
+	if f == nil {
+		return
+	}
+	info := f.Info()
+	g := c.G(f)
+	fTemp := c.P.LookupField("sample", "Sampler", "temperature")
+	if fTemp == nil {
+		c.Undecided(rule, "anchor:sample.Sampler.temperature", "-", "anchor lost")
+		return
+	}
+	// the value stored
+	var tp types.Object
+	nLit := 0
+	ast.Inspect(f.Body, func(m ast.Node) bool {
+		if kv, ok := m.(*ast.KeyValueExpr); ok {
+			if id, isId := kv.Key.(*ast.Ident); isId && info.Uses[id] == fTemp {
+				nLit++
+				if v, isV := ast.Unparen(kv.Value).(*ast.Ident); isV {
+					for i := 0; ; i++ {
+						p := paramAt(f, i)
+						if p == nil {
+							break
+						}
+						if info.Uses[v] == p {
+							tp = p
+						}
+					}
+				}
+			}
+		}
+		return true
+	})
+	c.Check(rule, f.Key()+" stores the temperature parameter", c.Pos(f.Body), nLit == 1 && tp != nil, "Sampler.temperature must be initialised from the temperature parameter itself")
+	if tp == nil {
+		return
+	}
+	n := 0
+	for _, as := range g.AssignsTo(tp) {
+		n++
+		ok, why := false, "the assignment can change a temperature of 0"
+		if st, isA := as.Node.(*ast.AssignStmt); isA && st.Tok == token.ASSIGN && len(st.Rhs) == 1 {
+			if v, isC := core.ConstFloat(info, st.Rhs[0]); isC && v == 0 {
+				ok = true
+			}
+		}
+		if !ok {
+			for _, a := range g.AtomsAt(as.Loc) {
+				be, isB := ast.Unparen(a.Expr).(*ast.BinaryExpr)
+				if !isB {
+					continue
+				}
+				_, y, op, okO := core.Orient(be, func(e ast.Expr) bool { return isIdentOf(info, e, tp) })
+				if !okO {
+					continue
+				}
+				if !a.Val {
+					op = negateCmp(op)
+				}
+				v, isC := core.ConstFloat(info, y)
+				if !isC {
+					continue
+				}
+				// the edge excludes 0
+				if (op == token.LSS && v <= 0) || (op == token.GTR && v >= 0) || (op == token.LEQ && v < 0) || (op == token.GEQ && v > 0) || (op == token.NEQ && v == 0) || (op == token.EQL && v != 0) {
+					ok = true
+				}
+			}
+		}
+		c.Check(rule, f.Key()+" temperature adjustment#"+itoa(n)+" keeps 0", c.Pos(as.Node), ok, why)
+	}
+	c.Expect(rule, "adjustments of the temperature parameter in NewSampler", n, 1)
+}
+
+// ---------------------------------------------------------------------------------- C19
+
+func extra4C19(c *Ctx) {
+	rule := "C19-R7"
+	c.Rule(rule, "one answer to 'does this template render the conversation itself': Template.Execute takes the .Messages branch exactly on the edge where slices.Contains(t.Vars(), \"messages\") holds — the predicate Parse uses — and Vars rests on Identifiers, whose type switch returns the identifiers of both leaf kinds that can name a field, *parse.FieldNode (.Messages) and *parse.VariableNode ($.Messages); a template misclassified as legacy ranges over nothing and loses every turn and image tag, one misclassified as messages-style renders <no value> for .Prompt")
+	if f := c.Fn(rule, "template", "Template.Execute"); f != nil {
+		info := f.Info()
+		g := c.G(f)
+		// the call that renders with "Messages" in its data
+		n := 0
+		for _, h := range g.FindCalls("text/template.Template.Execute") {
+			call := h.Node.(*ast.CallExpr)
+			hasMsgs := false
+			ast.Inspect(call, func(m ast.Node) bool {
+				if kv, ok := m.(*ast.KeyValueExpr); ok {
+					if s, isS := core.ConstString(info, kv.Key); isS && s == "Messages" {
+						hasMsgs = true
+					}
+				}
+				return true
+			})
+			if !hasMsgs {
+				continue
+			}
+			n++
+			ok := false
+			for _, a := range g.AtomsAt(h.Loc) {
+				cc, isC := ast.Unparen(a.Expr).(*ast.CallExpr)
+				if !isC || !a.Val || core.CalleeName(info, cc) != "slices.Contains" || len(cc.Args) != 2 {
+					continue
+				}
+				s, isS := core.ConstString(info, cc.Args[1])
+				if !isS || s != "messages" {
+					continue
+				}
+				if len(core.CallsTo(info, cc.Args[0], false, "template.Template.Vars")) == 1 {
+					ok = true
+				} else if id, isId := ast.Unparen(cc.Args[0]).(*ast.Ident); isId {
+					if rhs, _, cnt := singleDef(info, f.Body, info.Uses[id]); cnt == 1 && rhs != nil && len(core.CallsTo(info, rhs, false, "template.Template.Vars")) == 1 {
+						ok = true
+					}
+				}
+			}
+			c.Check(rule, f.Key()+" messages-style rendering#"+itoa(n)+" chosen by Vars()", c.Pos(call), ok, "the .Messages rendering must be on the true edge of slices.Contains(t.Vars(), \"messages\")")
+		}
+		c.Expect(rule, "messages-style renderings in Execute", n, 1)
+	}
+	if f := c.Fn(rule, "template", "Identifiers"); f != nil {
+		info := f.Info()
+		found := map[string]bool{}
+		ast.Inspect(f.Body, func(m ast.Node) bool {
+			cl, ok := m.(*ast.CaseClause)
+			if !ok {
+				return true
+			}
+			for _, te := range cl.List {
+				t := info.Types[te].Type
+				if t == nil {
+					continue
+				}
+				nm := core.ObjNameOfType(t)
+				if nm != "text/template/parse.FieldNode" && nm != "text/template/parse.VariableNode" {
+					continue
+				}
+				// every return in the clause returns <switch var>.Ident
+				good, any := true, false
+				for _, st := range cl.Body {
+					ast.Inspect(st, func(k ast.Node) bool {
+						if r, isR := k.(*ast.ReturnStmt); isR {
+							any = true
+							if len(r.Results) != 1 {
+								good = false
+							} else if se, isS := ast.Unparen(r.Results[0]).(*ast.SelectorExpr); !isS || se.Sel.Name != "Ident" {
+								good = false
+							}
+						}
+						return true
+					})
+				}
+				if len(cl.List) == 1 && any && good {
+					found[nm] = true
+				}
+			}
+			return true
+		})
+		for _, nm := range []string{"text/template/parse.FieldNode", "text/template/parse.VariableNode"} {
+			c.Check(rule, f.Key()+" case "+strings.TrimPrefix(nm, "text/template/")+" yields its identifiers", c.Pos(f.Body), found[nm], "the case must return the node's Ident: a field reached as $.Messages or .Messages is otherwise not reported by Vars()")
+		}
+	}
+}
+
+// ---------------------------------------------------------------------------------- C12
+
+func init() {
+	prev := registry["C12"].Run
+	registry["C12"].Run = func(c *Ctx) { prev(c); extra4C12(c) }
+}
+
+func extra4C12(c *Ctx) {
+	rule := "C12-R10"
+	c.Rule(rule, "the part files on disk describe the whole layout as soon as there is one: blobDownload.newPart adds a part to b.Parts only on the success edge of writePart for that part, so every part of a started download has its file before the first byte is fetched (after a kill Prepare takes whatever part files it finds for the complete set: with files only for the parts that made progress it computes a smaller total, run truncates the partial file to it and the pull fails the same way on every retry)")
+	f := c.Fn(rule, "server", "blobDownload.newPart")
+	if f == nil {
+		return
+	}
+	info := f.Info()
+	g := c.G(f)
+	fParts := c.P.LookupField("server", "blobDownload", "Parts")
+	if fParts == nil {
+		c.Undecided(rule, "anchor:blobDownload.Parts", "-", "anchor lost")
+		return
+	}
+	writes := g.FindCalls("server.blobDownload.writePart")
+	apps := g.Find(func(m ast.Node) bool {
+		as, ok := m.(*ast.AssignStmt)
+		if !ok || len(as.Lhs) != 1 || len(as.Rhs) != 1 {
+			return false
+		}
+		se, isS := ast.Unparen(as.Lhs[0]).(*ast.SelectorExpr)
+		call, isC := ast.Unparen(as.Rhs[0]).(*ast.CallExpr)
+		return isS && isC && core.FieldVar(info, se) == fParts && core.CalleeName(info, call) == "builtin.append"
+	})
+	if !c.Expect(rule, "appends to b.Parts in newPart", len(apps), 1) {
+		return
+	}
+	for i, ap := range apps {
+		ok, why := false, "no writePart call in newPart"
+		for _, w := range writes {
+			if s, wy := g.OnSuccessOf(w, ap.Loc); s {
+				ok = true
+			} else {
+				why = wy
+			}
+		}
+		c.Check(rule, f.Key()+" append#"+itoa(i+1)+" behind a successful writePart", c.Pos(ap.Node), ok, "the part joins the download without its part file having been written ("+why+")")
+	}
+}
+
+// ---------------------------------------------------------------------------------- C20
+
+func init() {
+	p := registry["C20"]
+	p.Pkgs = append(p.Pkgs, "model/models/llama", "model/models/mllama", "model/models/mistral3")
+	prev := p.Run
+	p.Run = func(c *Ctx) { prev(c); extra4C20(c) }
+}
+
+// splitAlternatives cuts a regular expression at its top-level '|'.
+func splitAlternatives(p string) []string {
+	var out []string
+	depth, inClass, start := 0, false, 0
+	for i := 0; i < len(p); i++ {
+		switch ch := p[i]; {
+		case ch == '\\':
+			i++
+		case inClass:
+			if ch == ']' {
+				inClass = false
+			}
+		case ch == '[':
+			inClass = true
+		case ch == '(':
+			depth++
+		case ch == ')':
+			depth--
+		case ch == '|' && depth == 0:
+			out = append(out, p[start:i])
+			start = i + 1
+		}
+	}
+	return append(out, p[start:])
+}
+
+func extra4C20(c *Ctx) {
+	rule := "C20-R7"
+	c.Rule(rule, "the built-in pre-tokeniser expressions leave no character out: BytePairEncoding.split yields only what the expression matches and silently drops the rest, so for every expression written into the source (the default argument next to tokenizer.ggml.pretokenizer in the llama, mllama and mistral3 models) each alternative that uses no look-around is compiled (RE2 syntax, which is what the models select) and evaluated on a probe set — every ASCII character, the first and last code point of every range of every Unicode general category except surrogates, and unassigned code points: each probe must be matched whole by some alternative, and no alternative may match the empty string (an alternative written \\d instead of \\p{N} stops matching ², ½, Ⅷ and every non-ASCII digit, and they vanish from the round trip)")
+	var probes []rune
+	for r := rune(0); r < 128; r++ {
+		probes = append(probes, r)
+	}
+	var cats []string
+	for name := range unicode.Categories {
+		cats = append(cats, name)
+	}
+	sort.Strings(cats)
+	for _, name := range cats {
+		if name == "Cs" || name == "C" {
+			continue
+		}
+		t := unicode.Categories[name]
+		for _, r := range t.R16 {
+			probes = append(probes, rune(r.Lo), rune(r.Hi))
+		}
+		for _, r := range t.R32 {
+			probes = append(probes, rune(r.Lo), rune(r.Hi))
+		}
+	}
+	probes = append(probes, 0x0378, 0x0379, 0x2FE0, 0xE0080, 0x10FFFF)
+	n := 0
+	for _, pkg := range []string{"model/models/llama", "model/models/mllama", "model/models/mistral3"} {
+		for _, f := range c.P.FuncsOf(pkg) {
+			if strings.HasSuffix(c.Pos(f.Body), "_test.go") {
+				continue
+			}
+			info := f.Info()
+			for _, call := range core.Calls(f.Body, true) {
+				if core.CalleeName(info, call) != "model.NewBytePairEncoding" || len(call.Args) < 1 {
+					continue
+				}
+				var pats []string
+				if s, ok := core.ConstString(info, call.Args[0]); ok {
+					pats = append(pats, s)
+				} else if inner, ok := ast.Unparen(call.Args[0]).(*ast.CallExpr); ok {
+					for _, a := range inner.Args[1:] {
+						if s, ok := core.ConstString(info, a); ok {
+							pats = append(pats, s)
+						}
+					}
+				}
+				if len(pats) == 0 {
+					c.Undecided(rule, f.Key()+" pre-tokeniser expression", c.Pos(call), "no constant expression found at this NewBytePairEncoding call")
+					continue
+				}
+				for _, pat := range pats {
+					n++
+					var res []*regexp.Regexp
+					skipped := 0
+					for _, alt := range splitAlternatives(pat) {
+						re, err := regexp.Compile(`^(?:` + alt + `)$`)
+						if err != nil {
+							skipped++
+							continue
+						}
+						res = append(res, re)
+					}
+					var missed []string
+					empty := false
+					for _, re := range res {
+						if re.MatchString("") {
+							empty = true
+						}
+					}
+					for _, r := range probes {
+						s := string(r)
+						ok := false
+						for _, re := range res {
+							if re.MatchString(s) {
+								ok = true
+								break
+							}
+						}
+						if !ok && len(missed) < 6 {
+							missed = append(missed, fmt.Sprintf("U+%04X", r))
+						} else if !ok {
+							missed = append(missed[:6], "…")
+						}
+					}
+					c.Check(rule, f.Key()+" pre-tokeniser expression#"+itoa(n)+" covers every character", c.Pos(call), len(missed) == 0 && !empty && len(res) > 0,
+						fmt.Sprintf("%d alternatives evaluated (%d with look-around skipped) on %d probes: unmatched %v, matches empty: %v — unmatched text is dropped by split", len(res), skipped, len(probes), missed, empty))
+				}
+			}
+		}
+	}
+	c.Expect(rule, "built-in pre-tokeniser expressions", n, 3)
 }
